@@ -429,6 +429,10 @@ std::vector<Node::ControlEndpoint> Node::preferred_control_endpoints() const {
             return;
         }
         if (const auto parsed = parse_endpoint(self)) {
+            // The self endpoint is derived, not configured: it obeys the same filter as the other auto-advertised ones.
+            if (!config_.advertise_allow_private && network::is_non_routable_advertise_host(parsed->first)) {
+                return;
+            }
             append(parsed->first, parsed->second, false);
         }
     };
